@@ -8,7 +8,7 @@ writes every fixed-width conversion the code performs explicitly:
   `route/route.go requestToEvent`)                                  → `uintOfInt`, `batchRate`, `headerRate`
 * `tempSampleRate * traceSampleRate` on `uint` (`mergeTraceAndSpanSampleRates`)  → `mulU64`
 * `int64(finalSampleRate)` when the product is written to a metadata field      → `toInt64`
-* `uint32(t.SampleRate())` in `cache.NewKeptTraceCacheEntry`                    → `trunc32`
+* the kept decision record (`cache.keptTraceCacheEntry.rate`) keeps the rate at full `uint` width
 * an `int64` metadata field of `types.Payload` is *absent* exactly when it holds 0 → `metaInt`
 * the samplers' floor: `deterministic.go` (`sampleRate <= 1 ⇒ 1`), `dynamic.go` & co
   (`uint(dynsampler rate)`, `< 1 ⇒ 1`), `rules.go` (`keep` requires `rule.SampleRate > 0`)
@@ -26,9 +26,6 @@ def uintOfInt (i : Int) : Nat := (i % (two64 : Int)).toNat
 /-- `int64(x)` for a `uint` `x`. -/
 def toInt64 (n : Nat) : Int :=
   if n % two64 < two63 then ((n % two64 : Nat) : Int) else ((n % two64 : Nat) : Int) - (two64 : Int)
-
-/-- `uint32(x)` for a `uint` `x`. -/
-def trunc32 (n : Nat) : Nat := n % two32
 
 /-- `a * b` on `uint`. -/
 def mulU64 (a b : Nat) : Nat := (a * b) % two64
